@@ -167,6 +167,7 @@ static void h_op(void)
       if (fp) frame = atoi(fp + 6);
       sprintf(tmp, " %s:%d:%" PRId64 ":%" PRId64 ":%" PRId64 ":", o->name, frame, o->start, o->end, o->n);
       b = bufcat(b, &cap, &len, tmp); b = bufcat(b, &cap, &len, h_hex(o->dsq + 1, o->n));
+      b = bufcat(b, &cap, &len, ":"); b = bufcat(b, &cap, &len, h_hex(o->desc, (int64_t) strlen(o->desc)));   /* the description line ProcessOrf formats */
     }
     h_out("%s", b);
     free(b); free(cuts); free(txt); free(d); if (rc) free(rc);
